@@ -22,6 +22,7 @@
 import Cog.Sem.SrcDen
 import Cog.Sem.WidenChainN
 import Cog.Sem.WidenStruct
+import Cog.Sem.SrcPy
 import Cog.Passes.Chain
 import Cog.Gen.Chains
 import Cog.Drv.SchemaStore
@@ -123,7 +124,7 @@ partial def srcWhy (ss : Schemas) (fuel : Nat) (t : Ty) (j : Json) : Option Stri
   | .struct _ _ (some _) _ => some "generated-union-struct"
   | .enum vs m => enumWhy m.nullable vs
   | .disj bs _ m =>
-    if bs.length == 2 && hasNullType bs then
+    if bs.length == 2 && Cog.Passes.hasNullType bs then
       match nonNullTypes bs with
       | t :: _ => srcWhy ss (fuel - 1) (setNullable true t) j
       | [] => some "null-or-null"
@@ -146,7 +147,7 @@ def plainTyWhy : Ty → Option String
   | .struct .. => some "anonymous-struct"
   | .enum .. => some "anonymous-enum"
   | .disj bs _ _ =>
-    some (if bs.length == 2 && hasNullType bs then "disjunction-with-null"
+    some (if bs.length == 2 && Cog.Passes.hasNullType bs then "disjunction-with-null"
           else if bs.all isConcreteScalar then "disjunction-of-constants"
           else if hasOnlyRefs bs then "disjunction-of-refs"
           else "disjunction-of-scalars")
@@ -161,7 +162,7 @@ def nrTyWhy : Ty → Option String
   | .map i v _ => if i.isScalar then nrTyWhy v else some "map-index"
   | .disj bs i m =>
     if nullPair bs then none
-    else if bs.length == 2 && hasNullType bs then some "disjunction-with-null-of-non-plain"
+    else if bs.length == 2 && Cog.Passes.hasNullType bs then some "disjunction-with-null-of-non-plain"
     else plainTyWhy (.disj bs i m)
   | .enum (_ :: _) _ => none
   | .enum [] _ => some "empty-enum"
@@ -243,6 +244,103 @@ def srcdenLine (rest : String) : IO String := do
         let why := if src then "-" else (srcWhy pre srcFuel t j).getD "unexplained"
         return s!"plain={prep.plain} plainN={prep.plainN} plainS={prep.plainS} src={src} den={dn} mden={mden} why={why} notplain={prep.notplain} notplainN={prep.notplainN} notplainS={prep.notplainS}"
     | _, _ => return "unknown-schemas"
+  | _ => return "bad-request"
+
+/-! ### C11: the same for the Python chain
+
+    srcpy <pre-id> <post-go-id> <post-py-id> <pkg> <object> <json-sexp>
+      → plainPyS=<b> plainS=<b> src=<b> pyden=<b> mpyden=<b|err> den=<b> notpy=<reason|->
+
+  plainPyS : `PlainPyS pre` (hypothesis of C11_pass_widening_struct_partial), plainS : `PlainS pre`;
+  pyden    : `pyDen (fuel+1) <real post-Python-chain IR> (ref pkg object) doc`   (conclusion on REAL data)
+  mpyden   : the same on `runChain pythonChain pre` (the pass models' output)
+  den      : `den (fuel+1) <real post-Go-chain IR> …` (with pyden: the hypotheses of the agreement theorem) -/
+
+def pyTyWhy : Ty → Option String
+  | .scalar .. => none
+  | .ref _ _ m => if m.nullable then some "nullable-reference" else none
+  | .array e m =>
+    match pyTyWhy e with
+    | some r => some r
+    | none => if (nullOpt e).isScalar || !m.nullable then none else some "nullable-array-of-non-scalars"
+  | .map _ v m =>
+    match pyTyWhy v with
+    | some r => some r
+    | none => if (nullOpt v).isScalar || !m.nullable then none else some "nullable-map-of-non-scalars"
+  | .enum .. => none
+  | .disj bs _ _ =>
+    match nullPairOf bs with
+    | some t => if nullSafe t then none else some "T|null-over-a-decoded-type"
+    | none => some "union"
+  | t => some ("type-kind:" ++ t.kind)
+
+def pyFieldWhy (f : Field) : Option String :=
+  match pyTyWhy f.ty with
+  | some r => some r
+  | none =>
+    if !isNilVal (nullOpt f.ty).getMeta.dflt then some "member-with-default"
+    else match f.ty with
+      | .scalar k v _ m =>
+        if isNilVal v then none
+        else if !f.required then some "optional-constant"
+        else if m.nullable then some "nullable-constant"
+        else if !pyConst v then some "non-string/bool/int-constant"
+        else if k == "bytes" || k == "any" || hasHint m "string_format_datetime" then some "constant-of-special-kind"
+        else none
+      | t => if (constOf (nullOpt t)).isNone then none else some "constant-under-T|null"
+
+def pyObjWhy : Ty → Option String
+  | .struct fs _ _ _ => firstSome pyFieldWhy fs
+  | .enum .. => none
+  | .array e m => match pyTyWhy (.array e m) with | some r => some r | none => if m.nullable then some "nullable-collection-alias" else none
+  | .map i v m => match pyTyWhy (.map i v m) with | some r => some r | none => if m.nullable then some "nullable-collection-alias" else none
+  | t => pyTyWhy t
+
+def plainPySWhy (S : Schemas) : String :=
+  if !structFresh S then "struct-names-not-fresh-or-object-map"
+  else match plainNWhy (asnS S) with
+    | some r => r
+    | none =>
+      (firstSome (fun (s : Schema) => firstSome (fun (ko : String × Obj) => pyObjWhy ko.2.ty) s.objects) (asnS S)).getD "-"
+
+structure PyPrep where
+  plainPyS : Bool
+  plainS : Bool
+  notpy : String
+  model : Option Schemas
+
+initialize pyPrepStore : IO.Ref (Std.HashMap String PyPrep) ← IO.mkRef {}
+
+def pyPrep (id : String) (pre : Schemas) : IO PyPrep := do
+  match (← pyPrepStore.get).get? id with
+  | some p => return p
+  | none =>
+    let p : PyPrep := {
+      plainPyS := PlainPyS pre
+      plainS := PlainS pre
+      notpy := plainPySWhy pre
+      model := match runChain Cog.Gen.Chains.pythonChain pre with | .ok s => some s | _ => none }
+    pyPrepStore.modify (·.insert id p)
+    return p
+
+def srcpyLine (rest : String) : IO String := do
+  match rest.splitOn " " with
+  | preId :: goId :: pyId :: pkg :: obj :: js =>
+    match ← getSchemas preId, ← getSchemas goId, ← getSchemas pyId with
+    | some pre, some postGo, some postPy =>
+      match (Sexp.parse (" ".intercalate js)).bind Json.ofSexp with
+      | none => return "bad-json"
+      | some j =>
+        let prep ← pyPrep preId pre
+        let t : Ty := .ref pkg obj {}
+        let src := srcDen srcFuel pre t j
+        let pd := pyDen (srcFuel + 1) postPy t j
+        let mpd := match prep.model with
+          | some m => toString (pyDen (srcFuel + 1) m t j)
+          | none => "err"
+        let dn := den (srcFuel + 1) postGo t j
+        return s!"plainPyS={prep.plainPyS} plainS={prep.plainS} src={src} pyden={pd} mpyden={mpd} den={dn} notpy={prep.notpy}"
+    | _, _, _ => return "unknown-schemas"
   | _ => return "bad-request"
 
 end Cog.Drv
